@@ -308,7 +308,7 @@ func (b *backend) pathImportVersionWrite(ctx context.Context, req *logical.Reque
 		return nil, err
 	}
 
-	if err := logical.EndTxStorage(ctx, req); err != nil {
+	if err := b.endPolicyTxStorage(ctx, req, name); err != nil {
 		return nil, err
 	}
 
